@@ -47,8 +47,21 @@ static std::string handle(const std::vector<std::string>& a) {
       err = (input.size() & 1) ? deserializeJson(doc, rd, DeserializationOption::NestingLimit((uint8_t)L), DeserializationOption::Filter(fv))
                                : deserializeJson(doc, rd, DeserializationOption::Filter(fv), DeserializationOption::NestingLimit((uint8_t)L));
     }
-    return std::string(codeName(err)) + " " + std::to_string(rd.reads) + " " +
-           (rd.fault ? "FAULT" : "ok") + " " + dumpTyped(doc);
+    std::string out = std::string(codeName(err)) + " " + std::to_string(rd.reads) + " " +
+                      (rd.fault ? "FAULT" : "ok") + " " + dumpTyped(doc);
+    if (a[2] == "-") {
+      // the same input into a nested value of a long-lived document that once ran out of memory (overflowed() still set)
+      // and has memory again: same verdict, same value
+      SpyAllocator spy; spy.fail_from = 0;
+      JsonDocument host(&spy);
+      host.add(std::string("this allocation fails"));
+      spy.fail_from = -1;
+      host.add(1);
+      JsonVariant el = host.add<JsonVariant>();
+      DeserializationError e2 = deserializeJson(el, input.data(), input.size(), DeserializationOption::NestingLimit((uint8_t)L));
+      if (e2 != err || dump(el) != dump(doc.as<JsonVariantConst>())) out += std::string("!NESTED-DESTINATION-DIFFERS(") + codeName(e2) + ")";
+    }
+    return out;
   }
   if (a[0] == "N" && a.size() == 2) {
     std::string s = unhex(a[1]);
